@@ -258,9 +258,13 @@ func (t *Template) expectString(context string) string {
 func (t *Template) parseTemplate(cacheAfterParsing bool, parsing []string) (next Node) {
 	t.Root = t.newList(t.peek().pos)
 	// {{ extends|import stringLiteral }}
+	var skipped []Node // leading empty text nodes, only dropped when an extends|import clause follows
 	for t.peek().typ != itemEOF {
 		delim := t.next()
 		if delim.typ == itemText && strings.TrimSpace(delim.val) == "" {
+			if t.extends == nil && len(t.imports) == 0 {
+				skipped = append(skipped, t.newText(delim.pos, delim.val))
+			}
 			continue //skips empty text nodes
 		}
 		if delim.typ == itemLeftDelim {
@@ -294,6 +298,9 @@ func (t *Template) parseTemplate(cacheAfterParsing bool, parsing []string) (next
 			t.backup()
 			break
 		}
+	}
+	if t.extends == nil && len(t.imports) == 0 {
+		t.Root.Nodes = skipped
 	}
 
 	for t.peek().typ != itemEOF {
